@@ -75,7 +75,7 @@ func VsH_RoundTrip() {
 		target := new(big.Int).SetBytes(vsNondetBytesUpTo(vsBound("targetbytes"), "target"))
 		m = &RequestQualities{TaskID: tid, Challenge: vsHash("challenge"), ParentTarget: target, ParentSlot: vsNondetU64("slot"), Height: vsNondetU64("height")}
 	case MsgTypeReportQualities:
-		n := vsFork(2, "nq")
+		n := vsFork(3, "nq") // 0, 1 or 2 entries; two entries may or may not share their space id (symbolic)
 		rq := &ReportQualities{TaskID: tid}
 		for i := 0; i < n; i++ {
 			var plot [32]byte
@@ -99,6 +99,12 @@ func VsH_RoundTrip() {
 	}
 	data, err := EncodeMessage(m)
 	vsAssert(err == nil, "encode-succeeds")
+	// a frame handed out stays what it was while the next message is encoded (frames are queued for sending)
+	held := append([]byte{}, data...)
+	saved := vsMarshalled // (the JSON stand-in remembers the last marshalled value)
+	_, err2 := EncodeMessage(&RequestSignature{TaskID: vsUUID("tid2"), Height: vsNondetU64("height2"), SpaceID: vsNondetString(2, "space2"), Hash: vsHash("hash2")})
+	vsAssert(err2 == nil && bytes.Equal(data, held), "encoded-frame-is-not-changed-by-the-next-encode")
+	vsMarshalled = saved
 	back, err := DecodeMessage(data)
 	vsAssert(err == nil && back != nil, "decode-of-encoded-message-succeeds")
 	if err != nil || back == nil {
